@@ -64,7 +64,7 @@ ATTR_FORMS = [
 # what stands next to the attribute set on the same element
 BESIDE = [('alone', {}), ('alone', {}), ('alone', {}), ('class', dict(classes=['c'])), ('id', dict(id='i')), ('text', dict(text='w'))]
 TEXTS = ['t', 'some text', 'T', '1', 'a b c']
-EMPTY_NODE_CHILDREN = False   # generator class "`{}` / `[]` directly followed by `>`" on / off (off: see the final report -- on
+EMPTY_NODE_CHILDREN = True    # generator class "`{}` / `[]` directly followed by `>`" on / off (off: see the final report -- on
                               # the unchanged library the elements written below such a unit are not printed at all)
 
 
